@@ -19,7 +19,8 @@ META = {
              "value class per item, same cursor; undefined packets skipped or reported with their partial data; nothing else.",
     "trusted": "z3; BV proxies and the struct.unpack / bytes.decode function symbols; Spec-XTCE (my reading of XTCE and of the property, DESIGN.md "
                "Appendix A); every path cross-validated against the unpatched generator on a concrete witness",
-    "bounds": {"quick": {"templates": ["T1", "T3", "T4", "T6", "JPSS", "MIX0..MIX16 (mixed-feature family: 17 field kinds x criteria forms)"], "packets per stream": "1 (2 for T4)", "lengths": "clean, and clean-1 for T1"},
+    "bounds": {"quick": {"templates": ["T1", "T3", "T4", "T6", "JPSS", "MIX0..MIX16 (mixed-feature family: 17 field kinds x criteria forms)"], "packets per stream": "1 (2 for T4)", "lengths": "clean, and clean-1 for T1",
+                         "entry points": "generator over bytes; generator over a file object read in chunks of 7 / 5 bytes with a 4-byte record prefix; root container named at load time / in the generator call (R|: root renamed); parse_ccsds_packet called directly"},
                "thorough": {"templates": ["T1", "T2", "T3", "T4", "T5", "T6", "JPSS", "JPSS_CONTRIVED", "MIX0..MIX101"], "packets per stream": "1-3",
                             "lengths": "clean-1, clean, clean+1"}},
     "stubs": ["struct.unpack and bytes.decode uninterpreted", "warnings.warn recorded", "enumeration dict lookup by a symbolic key = first equal key"],
